@@ -682,6 +682,9 @@ def selftest():
     assert _file_order(("a", "b", "c"), {"k": "list", "v": ["c", "a"]}) == ["a", "c"]
 
 
+SANITIZE = True        # thorough tier: reduced pass against an ASan build of the extensions
+SANITIZE_SCALE = 0.03
+
 SUBCHECKS = [
     Subcheck("keyword", keyword_cases, check, classify, quick=2500, thorough=40000),
     Subcheck("bracket", bracket_cases, check, classify, quick=2000, thorough=30000,
